@@ -172,6 +172,12 @@ check('C06', level='exploration', steps=[
       rule=RULE_CORPUS + "; every input is placed in a fresh exact-size heap buffer (ASan/UBSan/LSan build) and against PROT_NONE guard pages on both sides (plain build), and driven through all public entry points",
       deadline=dict(quick=420, thorough=3000))
 
+import c20cli
+check('C20', level='exploration', steps=[dict(kind='py', name='cli', fn=c20cli.run, replay=c20cli.replay)],
+      rule=("files = all sequences of 0..k lines (k=2 quick, 3 thorough) over the line-shape menu x {LF, CRLF} per line x final newline present/absent, plus long-line files "
+            "(1023..8192 bytes, ASCII and multi-byte, one straddling byte 2048) and NUL-containing files; files are de-duplicated, so every file is distinct; non-trivial = files with at least one terminated line and > 2 bytes"),
+      deadline=dict(quick=300, thorough=2400))
+
 # ---------------------------------------------------------------------------
 def load_findings():
     p = os.path.join(V, 'known_findings.json')
